@@ -119,6 +119,11 @@ func (p *program) runCheckers() error {
 }
 
 func (p *program) checkPackage(pkg *packages.Package) {
+	if pkg.TypesSizes != nil {
+		// Sizes of the platform the package was loaded for (GOARCH),
+		// which is not necessarily the platform this binary runs on.
+		p.ctx.SizesInfo = pkg.TypesSizes
+	}
 	p.ctx.SetPackageInfo(pkg.TypesInfo, pkg.Types)
 	for _, f := range pkg.Syntax {
 		filename := p.getFilename(f)
